@@ -36,6 +36,7 @@ type Op struct {
 	Val    string   `json:"val,omitempty"`
 	Ctx    string   `json:"ctx,omitempty"`
 	Yield  int      `json:"yield,omitempty"` // scheduling noise inside a handler body (stress mode)
+	Dyn    bool     `json:"dyn,omitempty"`   // pub: the event is published through an interface value (Publish[any])
 	PFail  string   `json:"pfail,omitempty"` // pub on a bus with a store: "rej" the store rejects the append, "hang" it blocks until its context is done
 }
 
@@ -535,8 +536,12 @@ func (d *Drv) Exec(g int, o Op) {
 		if d.cfg.Store {
 			d.pubT.Store(p, eb.EventType(reflect.New(gen.ByName(o.T).RT).Elem().Interface()))
 		}
-		d.Rec.Emit(map[string]any{"e": "pcall", "g": g, "p": p, "t": o.T, "val": o.Val, "ctx": ctxName})
-		gen.ByName(o.T).Pub(d.Bus, ctx, p, o.Val)
+		d.Rec.Emit(map[string]any{"e": "pcall", "g": g, "p": p, "t": o.T, "val": o.Val, "ctx": ctxName, "dyn": o.Dyn})
+		if o.Dyn {
+			gen.ByName(o.T).PubAny(d.Bus, ctx, p, o.Val)
+		} else {
+			gen.ByName(o.T).Pub(d.Bus, ctx, p, o.Val)
+		}
 		d.Rec.Emit(map[string]any{"e": "pret", "g": g, "p": p})
 		return
 	}
